@@ -127,7 +127,10 @@ def execute(plan: dict) -> dict:
     proto = plan["proto"]
     w = World()
     body = MARKER + b"p" * plan["payload"]
-    mib = {BASE + (1, 1, 1): ("str", body), BASE + (1, 1, 2): ("int", 42), BASE + (1, 2, 1): ("c32", 7)}
+    # the last object's value ends in a zero octet (INTEGER 0 / Counter 1000000000 / IpAddress x.x.x.0 / NULL):
+    # the plaintext scoped PDU then ends in 00, which a padding-stripping receiver would mangle
+    last = [("c32", 7), ("int", 0), ("c32", 1000000000 - 1000000000 % 256), ("ip", bytes([10, 0, 0, 0])), ("null", None)][plan["payload"] % 5]
+    mib = {BASE + (1, 1, 1): ("str", body), BASE + (1, 1, 2): ("int", 42), BASE + (1, 2, 1): last}
     agent = w.add_agent(agent_for(proto, mib, engine_id=plan["engine_id"], boots=plan["boots"], time0=plan["time0"]))
     agent.delay_for = lambda req: 0 if req.get("discovery") else plan["delay_s"] * 1024
     agent.report_ctx_echo = bool(plan.get("ctx_echo"))
